@@ -32,6 +32,8 @@ import (
 	sdk "github.com/cosmos/cosmos-sdk/types"
 	authtypes "github.com/cosmos/cosmos-sdk/x/auth/types"
 	banktypes "github.com/cosmos/cosmos-sdk/x/bank/types"
+	govtypes "github.com/cosmos/cosmos-sdk/x/gov/types"
+	govv1 "github.com/cosmos/cosmos-sdk/x/gov/types/v1"
 	stakingtypes "github.com/cosmos/cosmos-sdk/x/staking/types"
 	"github.com/ignite/cli/ignite/pkg/cosmoscmd"
 	abci "github.com/tendermint/tendermint/abci/types"
@@ -92,6 +94,7 @@ type Config struct {
 	BaselineZero     bool   `json:"baseline_zero,omitempty"`        // Baseline = 0 (Baseline: 0 means "default 1")
 	GenesisReward    int64  `json:"genesis_total_reward,omitempty"` // Pool.TotalReward of the genesis (to start near a halving)
 	FastUnbond       bool   `json:"fast_unbond,omitempty"`          // staking unbonding time 10 s (two blocks)
+	GovFast          bool   `json:"gov_fast,omitempty"`             // governance: deposit 1000 of the bond denom, voting period 15 s (three blocks)
 	MaxValidators    uint32 `json:"max_validators,omitempty"`
 }
 
@@ -268,6 +271,13 @@ func Genesis(enc cosmoscmd.EncodingConfig, actors []*Actor, cfg Config) (app.Gen
 		ng.Params.FishmenInfo = s
 	}
 	gs[nodetypes.ModuleName] = cdc.MustMarshalJSON(ng)
+	if cfg.GovFast {
+		gg := govv1.DefaultGenesisState()
+		gg.DepositParams.MinDeposit = sdk.NewCoins(sdk.NewInt64Coin(Denom, 1000))
+		vp := 15 * time.Second
+		gg.VotingParams.VotingPeriod = &vp
+		gs[govtypes.ModuleName] = cdc.MustMarshalJSON(gg)
+	}
 	return gs, pks
 }
 
